@@ -11,6 +11,7 @@
 package c01
 
 import (
+	"errors"
 	"fmt"
 	"math"
 	"os"
@@ -39,6 +40,10 @@ type op struct {
 	Cond   string
 	Min    int64
 	Max    int64
+	// failsnapshot: the batch written after each failing attempt; Then: a
+	// successful snapshot follows
+	Reps [][]model.Point
+	Then bool
 }
 
 type plan struct {
@@ -51,7 +56,18 @@ type plan struct {
 }
 
 func genOp(t *rapid.T, label string) op {
-	switch k := rapid.IntRange(0, 19).Draw(t, label+".kind"); {
+	switch k := rapid.IntRange(0, 21).Draw(t, label+".kind"); {
+	case k >= 20:
+		// a cache snapshot whose new file cannot be made durable (I/O error
+		// at its fsync): it fails, the cache keeps what it held, and later
+		// snapshots - failing again or not - must still cover it
+		// (1-3 failing attempts, each followed by a further acknowledged
+		// write, then possibly the attempt that succeeds)
+		o := op{Kind: "failsnapshot", Then: rapid.Bool().Draw(t, label+".then")}
+		for j, n := 0, rapid.IntRange(1, 3).Draw(t, label+".reps"); j < n; j++ {
+			o.Reps = append(o.Reps, storesim.GenBatch(t, 3, fmt.Sprintf("%s.r%d", label, j)))
+		}
+		return o
 	case k < 9:
 		return op{Kind: "write", Points: storesim.GenBatch(t, 8, label)}
 	case k < 10:
@@ -364,6 +380,51 @@ func (r *runner) phase(root string, depth int, acked *model.Shard, inflight *sto
 				run.Fail("snapshot-failed", "", "%s op%d: WriteSnapshot: %v", label, i, err)
 			}
 			cur = nil
+		case "failsnapshot":
+			for _, batch := range o.Reps {
+				cur = &storesim.Inflight{Kind: "other"}
+				fired := false
+				verifhook.SetFault(func(ev string, args ...interface{}) error {
+					if ev == "tsm.fsync" && !fired {
+						fired = true
+						return errors.New("injected: input/output error")
+					}
+					return nil
+				})
+				err := sim.Snapshot(shardID)
+				verifhook.SetFault(nil)
+				cur = nil
+				if fired {
+					run.Fault("eio-at-tsm-fsync")
+					if err == nil {
+						run.Fail("snapshot-reported-success-despite-fsync-error", "", "%s op%d: the new file's fsync failed, WriteSnapshot returned nil", label, i)
+					} else {
+						run.Probe("snapshot-failed-cache-kept")
+					}
+				} else if err != nil {
+					run.Fail("snapshot-failed", "", "%s op%d: WriteSnapshot: %v", label, i, err)
+				}
+				if run.Failed() {
+					break
+				}
+				cur = &storesim.Inflight{Kind: "write", Points: batch}
+				err = sim.Write(shardID, batch)
+				cur = nil
+				if err != nil {
+					run.Fail("write-failed", "", "%s op%d: WriteToShard after a failed snapshot: %v", label, i, err)
+					break
+				}
+				m.Write(batch)
+			}
+			if o.Then && !run.Failed() {
+				cur = &storesim.Inflight{Kind: "other"}
+				if err := sim.Snapshot(shardID); err != nil {
+					run.Fail("snapshot-failed", "", "%s op%d: WriteSnapshot after failed attempts: %v", label, i, err)
+				} else {
+					run.Probe("snapshot-succeeded-after-failed-attempts")
+				}
+				cur = nil
+			}
 		case "compact":
 			cur = &storesim.Inflight{Kind: "other"}
 			n, err := sim.Compact(shardID, o.CKind, o.Pick)
@@ -520,7 +581,7 @@ func TestC01(t *testing.T) {
 		Warmup:         warmup,
 		Describe:       describe,
 		Tier:           "A",
-		RequiredProbes: []string{"image-verified", "crash-during-recovery"},
+		RequiredProbes: []string{"image-verified", "crash-during-recovery", "snapshot-failed-cache-kept", "snapshot-succeeded-after-failed-attempts"},
 		Real:           []string{"tsdb.Store", "tsdb.Shard", "tsm1.Engine", "tsm1.WAL", "tsm1.Cache", "tsm1.Compactor", "tsm1.FileStore", "tsm1.Tombstoner", "tsdb.SeriesFile", "index inmem/tsi1", "real files on tmpfs"},
 		Stub:           []string{"none (durability is the SimDisk loss model)"},
 		Assumptions: []string{
@@ -528,6 +589,6 @@ func TestC01(t *testing.T) {
 			"directory operations are durable in program order (ordered-metadata model); arbitrary reordering of un-synced directory operations is not modelled",
 			"index and series files are copied as written (treated as durable)",
 		},
-		Rule: "a run = seeded history of writes/snapshots/compactions/deletes/reopens on a real store with crash images cut at seeded hook events; non-trivial = at least one crash image was opened and verified; distinct = distinct (op-kind multiset, fault kinds fired, probes hit, final model digest)",
+		Rule: "a run = seeded history of writes/snapshots/compactions/deletes/reopens on a real store, incl. cache snapshots that fail 1-3 times at the new file's fsync with further writes in between before one succeeds, with crash images cut at seeded hook events; non-trivial = at least one crash image was opened and verified; distinct = distinct (op-kind multiset, fault kinds fired, probes hit, final model digest)",
 	})
 }
